@@ -39,7 +39,7 @@ def has_spend_extra(e):
 
 def run(tier, seed):
     exe = vlib.build_harness("vh", "vh_generator")
-    key = "%s-%s-%s-%d" % (file_hash(exe), vlib.spec_hash("Conditions.tla", "ConditionsObs.tla", "Generator.tla", "Trace_Generator.tla", "MC_GenShape.tla", "CondMenus.tla"), tier, seed)
+    key = "%s-%s-%s-%s-%d" % (file_hash(__file__)[:8], file_hash(exe), vlib.spec_hash("Conditions.tla", "ConditionsObs.tla", "Generator.tla", "Trace_Generator.tla", "MC_GenShape.tla", "CondMenus.tla"), tier, seed)
     wd = vlib.workdir("gen")
     cache = os.path.join(wd, "result-%s.json" % key)
     if os.path.exists(cache):
@@ -75,7 +75,7 @@ def run(tier, seed):
             small["trusted"] = e.get("trusted")
         mism.append({"cls": c, "index": i, "sig": dict(sig(e), spend_extra=has_spend_extra(e)), "event": small if len(json.dumps(small)) < 200000 else {"src": e.get("src"), "flags": e.get("flags")}})
     res["mismatch"] = mism[:400]
-    stats = {"native_ok": 0, "legacy_ok": 0, "both_ok": 0, "both_rejected": 0, "legacy_only_failed": 0, "opaque": 0, "with_trusted": 0, "corpus_files": set()}
+    stats = {"native_ok": 0, "legacy_ok": 0, "both_ok": 0, "both_rejected": 0, "legacy_only_failed": 0, "opaque": 0, "with_trusted": 0, "refsel_accepted_multi_ref": 0, "refsel_rejected": 0, "corpus_files": set()}
     nontrivial = set()
     samples = []
     for p in paths:
@@ -88,6 +88,8 @@ def run(tier, seed):
             stats["legacy_only_failed"] += a and not b
             stats["opaque"] += bool(e.get("opaque"))
             stats["with_trusted"] += "trusted" in e
+            if "refsel" in e:
+                stats["refsel_accepted_multi_ref" if (a and e["nrefs"] >= 2) else "refsel_rejected" if not a else "opaque"] += 1 if (not a or e["nrefs"] >= 2) else 0
             if e.get("src") not in ("mc", "random", "frontier"):
                 stats["corpus_files"].add(e.get("src"))
             h = hashlib.sha256(json.dumps([e.get("prog", e.get("src")), e["flags"], e["max"], e["nrefs"], e["ser"]]).encode()).hexdigest()[:20]
